@@ -77,11 +77,21 @@ func c09RacePass(tier string) {
 			scope.Set(types.Symbol{Val: "b"}, &concurrent.Atom{Val: 1})
 			scope.Set(types.Symbol{Val: "k"}, &concurrent.Atom{Val: types.List{Val: []types.MalType{0}}})
 			var bodies []func()
+			cctx, ccancel := context.WithCancel(context.Background())
 			for ti, o := range plan {
+				if atomOps[o].harness != nil {
+					bodies = append(bodies, func() { ccancel() })
+					continue
+				}
 				ast := lx.MustRead(atomOps[o].text(10 * (ti + 1)))
+				if atomOps[o].mayFail {
+					bodies = append(bodies, func() { lx.Eval(cctx, ast, scope) })
+					continue
+				}
 				bodies = append(bodies, func() { lx.Eval(context.Background(), ast, scope) })
 			}
 			raceRun(bodies)
+			ccancel()
 			total++
 		}
 	}
